@@ -4,7 +4,7 @@ import common, schema, histgen, refcbor, cborgen
 from concurrent.futures import ThreadPoolExecutor
 THEOREMS = ["C03_window", "C03_alloc_bounded", "C03_alloc_bounded_skip", "C03_alloc_bounded_strings", "C03_time_arith", "C03_index_checked",
             "C03_params_index_checked", "C03_dname", "C03_fuel_partial", "C03_repeated_keys_as_the_code", "C03_nonvacuous"]
-EXTRA_PROPERTY_FILES = ("Properties_format", "Properties_cursor")   # obligations over the regenerated Gen_*.v (translator/*.py)
+EXTRA_PROPERTY_FILES = ("Properties_format", "Properties_cursor", "Properties_decoder")   # obligations over the regenerated Gen_*.v (translator/*.py)
 TOOLS = True
 OPS = ["D pk", "D u", "D n", "D i", "D b", "D bs", "D ts", "D as", "D ms", "D br", "D sk"]
 
